@@ -305,3 +305,30 @@ def run(chk, prog):
         chk.decide(RC, chk.key(RC, 'content_with_path_component', 'looks-up-named_content'), look,
                    'name components are resolved through named_content',
                    'content_with_path_component no longer resolves names through named_content', cw.loc(0))
+
+    # ---------------- (d) a saved position is read back, not judged
+    RD = 'C19.saved-position-read-back-total'
+    chk.rule(RD, 'In Thread::from_json, once the saved container path has been resolved (Container::content_at_path) the '
+             'reconstruction of the frame\'s pointer cannot fail by a decision of the reader: the only error exits after '
+             'the resolution are propagated JSON-shape errors (`?` on ok_or / typed accessors), never an error generated '
+             'from the outcome of the resolution. Every container - the root included, which the writer saves as the '
+             'empty path - is a position the writer can produce.')
+    tfj = prog.fn('Thread::from_json')
+    if chk.anchor(RD, 'Thread::from_json', tfj):
+        from analysis.wbf import err_exits
+        gt = cfg(tfj)
+        res = [bb for bb, t in tfj.calls() if callee_short(t) == 'Container::content_at_path']
+        if chk.anchor(RD, 'resolution of cPath in Thread::from_json', res):
+            bad = []
+            for g_ in prog.with_closures(tfj):
+                if g_ is not tfj:
+                    continue
+                for bb, desc, src in err_exits(prog, g_):
+                    if src is None and any(gt.dominates(rb, bb) for rb in res):
+                        bad.append((bb, desc))
+            chk.decide(RD, chk.key(RD, 'no-generated-error-after-resolution'), not bad,
+                       'after the resolution only JSON-shape errors can be returned',
+                       'Thread::from_json generates an error (%s) after it has resolved the saved container path: a position '
+                       'the writer produced (for instance the root container, saved as the empty path before the first '
+                       'continue or in a fresh flow) is refused when the save is read back'
+                       % ', '.join(d for _, d in bad), tfj.loc(bad[0][0]) if bad else None)
